@@ -33,6 +33,8 @@ import (
 	"github.com/asaskevich/EventBus"
 	"github.com/prometheus/client_golang/prometheus"
 	"pgregory.net/rapid"
+
+	"verif/simnode"
 )
 
 // ---------- (a) couchbase heart-beat membership ----------
@@ -40,6 +42,11 @@ import (
 type c10Op struct {
 	Join  bool `json:"join,omitempty"`
 	Leave int  `json:"leave,omitempty"` // index (cyclic) into the currently live members, in join order
+	// Swap (last op of a history, >= 2 live members): the member at index 1 + Swap%(live-1) disappears (its instance
+	// document is gone: expired) and, within the same monitor round of the others, a new instance has registered (its
+	// document and index entry are written on the node). The set of instances changes, the group size does not, and every
+	// member that joined before the one that left keeps its number.
+	Swap int `json:"swap,omitempty"`
 }
 
 type c10CB struct {
@@ -88,6 +95,7 @@ func c10Child(raw json.RawMessage) any {
 	}
 	var live []*c10Member
 	nextID := 0
+	fakes := 0 // instances that exist only as documents on the node (they joined last)
 	quiesce := func(step int) bool {
 		// all live members' last published model stable and consistent for 3 monitor rounds; bound: tolerance + 60 rounds
 		deadline := time.Now().Add(c10Tolerance + c10Heartbeat + 60*c10Monitor + 2*time.Second)
@@ -105,7 +113,7 @@ func c10Child(raw json.RawMessage) any {
 				}
 				m.mu.Unlock()
 				parts = append(parts, fmt.Sprintf("%d:%d/%d", m.id, cur.MemberNumber, cur.TotalMembers))
-				if n == 0 || cur.TotalMembers != len(live) || cur.MemberNumber != rank+1 {
+				if n == 0 || cur.TotalMembers != len(live)+fakes || cur.MemberNumber != rank+1 {
 					ok = false
 				}
 			}
@@ -141,6 +149,60 @@ func c10Child(raw json.RawMessage) any {
 		}
 	}
 	for step, op := range sc.Ops {
+		if op.Swap > 0 && len(live) >= 2 && step == len(sc.Ops)-1 {
+			i := 1 + op.Swap%(len(live)-1)
+			before := map[int]int{}
+			for _, m := range live[:i] {
+				m.mu.Lock()
+				before[m.id] = len(m.pubs)
+				m.mu.Unlock()
+			}
+			live[i].ms.Close()
+			allKey := reservedPrefix + "grp:instance:all"
+			e.c.Lock()
+			idx := e.c.Docs[allKey]
+			all := map[string]int64{}
+			if idx != nil {
+				_ = json.Unmarshal(idx.Body, &all)
+			}
+			ids := make([]string, 0, len(all))
+			for k := range all {
+				ids = append(ids, k)
+			}
+			sort.SliceStable(ids, func(a, b int) bool { return all[ids[a]] < all[ids[b]] })
+			swapped := false
+			if idx != nil && len(ids) == len(live) {
+				now := time.Now().UnixNano()
+				delete(e.c.Docs, ids[i])
+				delete(all, ids[i])
+				fake := reservedPrefix + "grp:instance:node-side-" + fmt.Sprint(step)
+				all[fake] = now
+				body, _ := json.Marshal(map[string]any{"type": "instance", "heartbeatTime": now + int64(time.Hour), "clusterJoinTime": now})
+				e.c.Docs[fake] = &simnode.Doc{Body: body, Cas: uint64(now)}
+				idx.Body, _ = json.Marshal(all)
+				idx.Cas++
+				swapped = true
+			}
+			e.c.Unlock()
+			live = append(live[:i:i], live[i+1:]...)
+			if !swapped {
+				res.Timing = true // the index does not list exactly the live members: not the situation asked for
+				break
+			}
+			fakes++
+			if !quiesce(step) {
+				break
+			}
+			// the members that joined before the one that left keep number and group size: nothing to announce
+			for _, m := range live[:i] {
+				m.mu.Lock()
+				if len(m.pubs) != before[m.id] && res.Violation == "" {
+					res.Violation = fmt.Sprintf("member %d kept its number and the group its size (another instance left and a new one registered within one monitor round), yet it announced %v again: a notification repeating the membership in effect", m.id, m.pubs[before[m.id]:])
+				}
+				m.mu.Unlock()
+			}
+			break
+		}
 		if op.Join || len(live) == 0 {
 			m := &c10Member{id: nextID, bus: EventBus.New()}
 			nextID++
@@ -168,7 +230,7 @@ func c10Child(raw json.RawMessage) any {
 				res.Violation = fmt.Sprintf("member %d: GetInfo() does not return at quiescence", m.id)
 				break
 			}
-			if info.MemberNumber != rank+1 || info.TotalMembers != len(live) {
+			if info.MemberNumber != rank+1 || info.TotalMembers != len(live)+fakes {
 				res.Violation = fmt.Sprintf("member %d: GetInfo() = %d/%d at quiescence, want %d/%d", m.id, info.MemberNumber, info.TotalMembers, rank+1, len(live))
 			}
 		}
@@ -237,6 +299,9 @@ func TestC10_Couchbase(t *testing.T) {
 					liveN--
 				}
 			}
+			if liveN >= 2 && rapid.IntRange(0, 2).Draw(rt, "swap") == 0 {
+				sc.Ops = append(sc.Ops, c10Op{Swap: rapid.IntRange(1, 8).Draw(rt, "swapwho")})
+			}
 			scs = append(scs, sc)
 		}
 	})
@@ -272,6 +337,9 @@ func TestC10_Couchbase(t *testing.T) {
 		joins, nonLast := 0, false
 		liveN := 0
 		for _, op := range scs[i].Ops {
+			if op.Swap > 0 {
+				continue
+			}
 			if op.Join || liveN == 0 {
 				joins++
 				liveN++
@@ -282,7 +350,11 @@ func TestC10_Couchbase(t *testing.T) {
 				liveN--
 			}
 		}
-		record("C10", scs[i], joins >= 3 && nonLast, "couchbase_histories")
+		labs := []string{"couchbase_histories"}
+		if n := len(scs[i].Ops); n > 0 && scs[i].Ops[n-1].Swap > 0 {
+			labs = append(labs, "instance_swapped_within_one_round")
+		}
+		record("C10", scs[i], joins >= 3 && nonLast, labs...)
 	}
 }
 
